@@ -248,18 +248,40 @@ func pipeRules(c *Ctx) {
 	// Cache.Put drains its reader: the deferred io.Copy(io.Discard, r)
 	if fp := c.P.MustFunc(R, "R14e", kPut); fp != nil {
 		ok := false
+		why := "disk.Put no longer drains its reader on all paths: pipes handed to it can block their writers"
 		if len(fp.Decl.Body.List) > 0 {
 			if d, isDefer := fp.Decl.Body.List[0].(*ast.DeferStmt); isDefer {
 				if l, isLit := d.Call.Fun.(*ast.FuncLit); isLit {
-					for _, call := range callsIn(l.Body, false) {
-						if fullCalleeName(fp.Pkg.TypesInfo, call) == "io.Copy" && exprStr(call.Args[0]) == "io.Discard" && identObj(fp.Pkg.TypesInfo, call.Args[1]) != nil && identObj(fp.Pkg.TypesInfo, call.Args[1]) == readerParam(c.P.FlowOf(fp)) {
-							ok = true
+					rp := readerParam(c.P.FlowOf(fp))
+					info := fp.Pkg.TypesInfo
+					// the drain is the closure's only effect and is guarded by nothing but `r != nil`
+					var walk func(list []ast.Stmt, guarded bool)
+					walk = func(list []ast.Stmt, guarded bool) {
+						for _, st := range list {
+							switch st := st.(type) {
+							case *ast.IfStmt:
+								be, isBin := ast.Unparen(st.Cond).(*ast.BinaryExpr)
+								onlyNil := isBin && be.Op == token.NEQ && st.Init == nil && st.Else == nil &&
+									((identObj(info, be.X) == rp && exprStr(be.Y) == "nil") || (identObj(info, be.Y) == rp && exprStr(be.X) == "nil"))
+								if onlyNil && !guarded && rp != nil {
+									walk(st.Body.List, true)
+								} else {
+									why = "the deferred drain of disk.Put is guarded by more than `r != nil` (" + exprStr(st.Cond) + "): on the other paths a pipe handed to Put is never read to the end"
+								}
+							case *ast.ExprStmt, *ast.AssignStmt:
+								for _, call := range callsIn(st, false) {
+									if fullCalleeName(info, call) == "io.Copy" && len(call.Args) == 2 && exprStr(call.Args[0]) == "io.Discard" && rp != nil && identObj(info, call.Args[1]) == rp {
+										ok = true
+									}
+								}
+							}
 						}
 					}
+					walk(l.Body.List, false)
 				}
 			}
 		}
-		R.Check(ok, "R14e", c.Cfg+kPut+":drains-reader", c.P.Pos(fp.Decl.Pos()), "disk.Put's first deferred call drains the reader on every exit (so a pipe handed to Put is always read to EOF)", "disk.Put no longer drains its reader on all paths: pipes handed to it can block their writers")
+		R.Check(ok, "R14e", c.Cfg+kPut+":drains-reader", c.P.Pos(fp.Decl.Pos()), "disk.Put's first deferred call drains the reader on every exit, guarded by nothing but r != nil (so a pipe handed to Put is always read to EOF)", why)
 	}
 	// count pipes
 	n := 0
